@@ -54,6 +54,9 @@ CORPUS = [
     ({"main": "fn main() { " + " ".join(f"let u{i} = {i};" for i in range(170)) + " println(42); }\n" + "\n".join(f"fn q{i}(p{i}: int) {{ }}" for i in range(40))}, "many-warnings"),
     ({"main": "import { " + ", ".join(f"f{i}" for i in range(60)) + " } from lib;\nfn main() { " + " ".join(f"let w{i} = {i};" for i in range(70)) + " println(f0(1) + f1(2)); }",
       "lib": "\n".join(f"pub fn f{i}(n: int) -> int {{ let z{i} = n; n + {i} }}" for i in range(60)) + "\nfn main() { }"}, "many-warnings-modules"),
+    # to_json of an object with SEVERAL fields that cannot be encoded: which one the error names
+    ({"main": 'fn helper() { }\nfn main() { println(new { name: "x", window: 1..5, action: helper, zed: 2..3, yy: helper }.to_json()); }'}, "to-json-several-unencodable"),
+    ({"main": 'fn helper() { }\nfn main() { let d = new { ? }; d.set("w", 1..2); d.set("a", helper); d.set("b", 3..4); d.set("c", [helper]); println(d.to_json_indent()); }'}, "to-json-several-unencodable"),
     # a refused cast of an object that lacks SEVERAL expected fields / has several surplus fields: which one the message names
     ({"main": 'type Cfg = { host: str, port: int, retries: int, tls: bool, name: str, zone: ?int };\nfn chk(s: str) { try { let c = s.parse_json() as Cfg; println(c.host); } catch e { println(e.message); } '
               'try { let c: Cfg = s.parse_json(); println(c.port); } catch e { println(e.message); } }\n'
